@@ -40,6 +40,7 @@ def population_correction(h):
     # the weights are the normalised previous results: their sum S is at least the number of calibration units
     S, dS = sums.formal_sum_dom(h.ctx, root, inCal(u), last(u))
     sums.lemma_sum_bound(h.ctx, dS, cal.axis.n, lo=z3.RealVal(1), name="lemma.weight_sum_positive")
+    h.interp.ghost_rows = [z3.Int("some_cal_row")]  # a row the theory entries may instantiate their facts at
     self = h.obj(NP)
     h.default_replay = lambda ev: {"target": "verif_replays:population_correction_replay", "args": [], "check": "result['exc'] is None and result['ok']"}
     kind, c = h.call_method(self, "_compute_population_correction", cal, scores, q, "turnout")
